@@ -1,5 +1,5 @@
 From Coq Require Import List NArith ZArith Permutation.
-From SK Require Import lib.LGraph lib.StrJoin model.C08_Model proof.C08_Spec proof.C08_Faithful proof.C08_Nauty proof.C08_SigFun proof.C08_Sound.
+From SK Require Import lib.LGraph lib.StrJoin model.C08_Model proof.C08_Spec proof.C08_Faithful proof.C08_Nauty proof.C08_SigFun proof.C08_Sound proof.C08_Invariant.
 Import ListNotations.
 
 (** 1. Faithfulness: the canonical graph is the input relabelled by a map that is injective on its nodes;
@@ -91,3 +91,27 @@ Theorem C08_signature_sound_nauty : forall (D : Type) (digest : str -> D) (g h :
   exists f, inj_on f (node_ids g) /\ geq_cov (relabel f g) h.
 Proof. exact signature_sound_nauty. Qed.
 Print Assumptions C08_signature_sound_nauty.
+
+(** 5. The exact back-end is invariant: any two graphs that are isomorphic on the covered attributes - however
+       their nodes are numbered, in whatever order nodes and edges were inserted, whichever way round an edge is
+       stored, whatever the atom maps (which only steer the order in which the search visits children) - receive
+       the same canonical graph on the covered attributes and the same serialisation, hence the same signature.
+       Proof: the individualisation-refinement search of the model is an instance of lib/IRCore + lib/IRSearch
+       (pruned search = fold over the unpruned leaf enumeration; the leaf enumerations of isomorphic graphs
+       correspond up to order; the minimum label is order-independent), the label string determines the
+       position-indexed covered graph (two leaves with equal labels differ by an automorphism), and the
+       serialisation is a function of the covered graph.  Includes termination within the fuel. *)
+Theorem C08_nauty_invariant : forall (D : Type) (digest : str -> D) (g h : graph),
+  wf g -> wf h -> els_ok g ->
+  (exists f, inj_on f (node_ids g) /\ geq_cov (relabel f g) h) ->
+  geq_cov (canon_nauty g) (canon_nauty h) /\
+  digest (serialise (canon_nauty g)) = digest (serialise (canon_nauty h)).
+Proof. exact signature_invariant_nauty. Qed.
+Print Assumptions C08_nauty_invariant.
+
+(** 3 (nauty). The signature of the exact back-end is a function of the graph (special case of 5). *)
+Theorem C08_signature_function_nauty : forall (D : Type) (digest : str -> D) (g h : graph),
+  wf g -> wf h -> els_ok g -> geq_cov g h ->
+  digest (serialise (canon_nauty g)) = digest (serialise (canon_nauty h)).
+Proof. exact signature_function_nauty. Qed.
+Print Assumptions C08_signature_function_nauty.
